@@ -33,14 +33,49 @@ func runC20(p *Prog, r *Report) {
 		r.Anchor("R20.1-state", "cedar.PolicySet struct")
 		return
 	}
-	mapFields := 0
+	// one place holds the policies: fields that cannot hold a policy or an id (a mutex, a flag, a counter) are not the
+	// rule's business; a second field that can (a slice of entries next to the map, an index, a cache) is a second copy of
+	// the state that every mutator would have to keep in step
+	var mentions func(t types.Type, seen map[types.Type]bool) bool
+	mentions = func(t types.Type, seen map[types.Type]bool) bool {
+		if seen[t] {
+			return false
+		}
+		seen[t] = true
+		if typeIs(t, pRoot, "Policy") || typeIs(t, pTypes, "PolicyID") || typeIs(t, pRoot, "PolicyID") {
+			return true
+		}
+		switch u := t.Underlying().(type) {
+		case *types.Pointer:
+			return mentions(u.Elem(), seen)
+		case *types.Slice:
+			return mentions(u.Elem(), seen)
+		case *types.Array:
+			return mentions(u.Elem(), seen)
+		case *types.Map:
+			return mentions(u.Key(), seen) || mentions(u.Elem(), seen)
+		case *types.Struct:
+			if n := namedOf(t); n != nil && n.Obj().Pkg() != nil && !strings.HasPrefix(n.Obj().Pkg().Path(), modPath) {
+				return false
+			}
+			for i := 0; i < u.NumFields(); i++ {
+				if mentions(u.Field(i).Type(), seen) {
+					return true
+				}
+			}
+		}
+		return false
+	}
+	holders := 0
+	var names []string
 	for i := 0; i < st.NumFields(); i++ {
-		if _, ok := st.Field(i).Type().Underlying().(*types.Map); ok {
-			mapFields++
+		if mentions(st.Field(i).Type(), map[types.Type]bool{}) {
+			holders++
+			names = append(names, st.Field(i).Name())
 		}
 	}
-	r.Check(st.NumFields() == 1 && mapFields == 1, "R20.5-single-state", "cedar-go.PolicySet", p.pos(ps.Obj().Pos()),
-		"PolicySet's only field is the id->policy map", "PolicySet has "+itoa(st.NumFields())+" fields ("+itoa(mapFields)+" maps): any second field is state the map model does not describe (e.g. a cache that can go stale)")
+	r.Check(holders == 1, "R20.5-single-state", "cedar-go.PolicySet", p.pos(ps.Obj().Pos()),
+		"exactly one field of PolicySet can hold policies or ids (the id->policy map)", "PolicySet has "+itoa(holders)+" fields that can hold policies or ids ("+strings.Join(names, ", ")+"): a second one is a second copy of the state that every mutator has to keep in step with the map (e.g. a list or cache that goes stale on replacement)")
 
 	// the Policy struct: evaluator + ast only
 	if pol := p.namedType(pRoot, "Policy"); pol != nil {
@@ -59,7 +94,12 @@ func runC20(p *Prog, r *Report) {
 			return false
 		}
 		fa, ok := ld.X.(*ssa.FieldAddr)
-		return ok && fa.X == fn.Params[0] && fa.Field == 0
+		if !ok || fa.X != fn.Params[0] {
+			return false
+		}
+		// the field that holds the policies, wherever it sits in the struct
+		_, isMap := st.Field(fa.Field).Type().Underlying().(*types.Map)
+		return isMap && mentions(st.Field(fa.Field).Type(), map[types.Type]bool{})
 	}
 	add := p.fn(pRoot, "PolicySet.Add")
 	rem := p.fn(pRoot, "PolicySet.Remove")
